@@ -28,6 +28,7 @@ type Oblig struct {
 	Model   string
 	ctx     *Ctx
 	Witness string
+	res     *FuncResult
 }
 
 type Ctx struct {
@@ -46,6 +47,7 @@ type Ctx struct {
 	skolems  map[string][]*skolemFn
 	obNames  map[string]int
 	unsupported string
+	trivial  int
 	closures map[string]ClosureVal
 }
 
